@@ -71,7 +71,7 @@ PROPS = {
         technique="Lean 4 proof (induction over the plan) + fault-injection correspondence on the real archive file",
     ),
     "C04": dict(
-        modules=["Copia.Props.C04", "Copia.Props.C04b", "Copia.Props.C04c", "Copia.Props.C06c", "Copia.Props.C06d", "Copia.Props.C04d", "Copia.Props.C04e", "Copia.Props.C13f", "Copia.Props.C04f", "Copia.Props.C04g", "Copia.Props.C04h", "Copia.Props.C09f"], namespaces=["Copia.C04"], runner="bb", bb_module="bb_oneway",
+        modules=["Copia.Props.C04", "Copia.Props.C04b", "Copia.Props.C04c", "Copia.Props.C06c", "Copia.Props.C06d", "Copia.Props.C04d", "Copia.Props.C04e", "Copia.Props.C13f", "Copia.Props.C04f", "Copia.Props.C04g", "Copia.Props.C04h", "Copia.Props.C04i", "Copia.Props.C09f"], namespaces=["Copia.C04"], runner="bb", bb_module="bb_oneway",
         assumptions=_OW_ASSUME, trusted_base=_OW_TB + ["bash's ANSI-C quoting ($'…') as modelled by Quote.ansiC: named escapes decoded, unknown escapes kept, numeric/control escapes outside the model (never produced by the escaping chain — proved); cross-checked against the installed bash on every run"],
         level_text="Kernel-checked theorems for ALL trees/flags over the run model: destination after a run = (deleted if in delete; source entry with the source's whole-second mtime if in transfer; untouched otherwise), "
                    "nothing outside the plan is touched — also when ANY subset of the transfers and deletes fails (`partial_failure_stays_in_plan`: the non-zero-exit clause) —, an empty source without --delete is a no-op, and ORDER INDEPENDENCE: any completion order of the parallel transfers/deletes gives the same destination. "
